@@ -96,6 +96,15 @@ func runC02(c *core.Ctx, idx int) {
 					if r.Bool() {
 						sortSpec = append(sortSpec, g.Sort(2)...)
 					}
+				case 2: // exactly five fields over the two symbols with the fewest distinct values: rows that tie on all five
+					for i := 0; i < 5; i++ {
+						f := qx.SortF{Sym: core.Pick(r, []string{"b", "grp"})}
+						if r.Bool() {
+							f.Dir, f.Desc = "desc", true
+						}
+						sortSpec = append(sortSpec, f)
+					}
+					c.Count("five_field_sorts_over_tie_heavy_symbols", 1)
 				case 4: // the previous symbols with every direction flipped (same store instance)
 					for _, f := range prevSort {
 						f.Desc = !f.Desc
